@@ -64,6 +64,9 @@ var heapTargets = []target{
 	{"stack.go", "stack.pop"},
 	{"stack.go", "stack.size"},
 	{"stack.go", "stack.dfs"},
+	{"simple_tree_spreader.go", "colorizeSpreaderSimple.spreadBranch"},
+	{"simple_tree_spreader.go", "colorizeSpreaderSimple.colorize"},
+	{"simple_tree_spreader.go", "colorizeSpreaderSimple.summary"},
 }
 
 // structs that live in the heap (handled through pointers) and value structs generated here; other value structs
@@ -71,7 +74,8 @@ var heapTargets = []target{
 var heapStructs = map[string]string{"Node": "node.go"}
 var heapValueStructs = map[string]string{"defaultGrowerSimple": "simple_tree_grower.go", "fileConsiderer": "file_considerer.go",
 	"defaultMkdirerSimple": "simple_tree_mkdirer.go", "defaultWalkerSimple": "simple_tree_walker.go",
-	"defaultSpreaderSimple": "simple_tree_spreader.go", "defaultGrowSpreaderSimple": "simple_tree_grow_spreader.go"}
+	"defaultSpreaderSimple": "simple_tree_spreader.go", "defaultGrowSpreaderSimple": "simple_tree_grow_spreader.go",
+	"colorizeSpreaderSimple": "simple_tree_spreader.go"}
 var srcStructs = map[string]string{"branch": "node.go", "branchFormat": "simple_tree_grower.go"}
 
 type hfn struct {
@@ -88,6 +92,7 @@ type hfn struct {
 	writesFS bool // changes the file system (os.MkdirAll, os.Create)
 	usesCB   bool // calls a user callback (whose state is threaded)
 	writesW  bool // writes to the caller's io.Writer
+	mutRecv  bool // changes a counter field of its receiver: the receiver is returned
 	usesStk  bool // a method of *stack: reads the stack of open nodes (the world component stk_, root first)
 	writesStk bool // pushes or pops
 	fuel     bool
@@ -158,6 +163,8 @@ func (t *htr) leanType(g string) string {
 		return "(Go.Ptr → σ → σ × (Option Src.Err))"
 	case "*list.Element":
 		return "Go.Ptr"
+	case "*counter":
+		return "Int" // a counter is its count (counter.go: next / reset / current under a mutex)
 	}
 	if strings.HasPrefix(g, "*") {
 		if _, ok := heapStructs[g[1:]]; ok {
@@ -372,6 +379,9 @@ func (f *hfn) outs() []string {
 	if f.writesStk {
 		o = append(o, "stk_")
 	}
+	if f.mutRecv {
+		o = append(o, id(f.recvName))
+	}
 	return o
 }
 func (f *hfn) ins() []string {
@@ -474,6 +484,26 @@ func (t *htr) calleeOf(sc *hscope, call *ast.CallExpr) (*hfn, ast.Expr) {
 	return nil, nil
 }
 
+// counterOp: `<recv>.<field>.<op>()` on a field of type *counter of the receiver; returns (field, op)
+func (t *htr) counterOp(sc *hscope, call *ast.CallExpr) (string, string) {
+	se, ok := call.Fun.(*ast.SelectorExpr)
+	if !ok {
+		return "", ""
+	}
+	in, ok := se.X.(*ast.SelectorExpr)
+	if !ok {
+		return "", ""
+	}
+	idt, ok := in.X.(*ast.Ident)
+	if !ok || sc.fn == nil || idt.Name != sc.fn.recvName {
+		return "", ""
+	}
+	if t.fieldType(strings.TrimPrefix(sc.fn.recvType, "*"), in.Sel.Name) != "*counter" {
+		return "", ""
+	}
+	return in.Sel.Name, se.Sel.Name
+}
+
 // listOp: `s.nodes.<Op>(…)` on the receiver `s *stack` (its field `nodes *list.List` is the world component stk_)
 func listOp(f *hfn, call *ast.CallExpr) string {
 	se, ok := call.Fun.(*ast.SelectorExpr)
@@ -541,6 +571,12 @@ func (t *htr) typeOf(sc *hscope, e ast.Expr) string {
 		case "Len":
 			return "int"
 		}
+		if _, op := t.counterOp(sc, x); op == "current" || op == "next" {
+			return "uint"
+		}
+		if se, ok := x.Fun.(*ast.SelectorExpr); ok && se.Sel.Name == "Sprint" && strings.HasSuffix(t.typeOf(sc, se.X), "color.Color") {
+			return "string"
+		}
 		if idt, ok := x.Fun.(*ast.Ident); ok {
 			switch idt.Name {
 			case "len":
@@ -561,6 +597,8 @@ func (t *htr) typeOf(sc *hscope, e ast.Expr) string {
 					return "bool"
 				case "fmt.Errorf":
 					return "error"
+				case "fmt.Sprintf":
+					return "string"
 				}
 			}
 		}
@@ -588,6 +626,17 @@ func (t *htr) analyse() {
 			if p[1] == callbackType {
 				f.usesCB = true
 			}
+		}
+		{
+			sc0 := t.scopeOf(f)
+			ast.Inspect(f.decl.Body, func(n ast.Node) bool {
+				if ce, ok := n.(*ast.CallExpr); ok {
+					if _, op := t.counterOp(sc0, ce); op == "next" || op == "reset" {
+						f.mutRecv = true
+					}
+				}
+				return true
+			})
 		}
 		if f.recvType == "*stack" {
 			f.usesStk = true
@@ -690,6 +739,9 @@ func (t *htr) analyse() {
 				}
 				if g.writesStk && !f.writesStk {
 					f.writesStk, changed = true, true
+				}
+				if g.mutRecv && !f.mutRecv && g.recvType == f.recvType {
+					f.mutRecv, changed = true, true
 				}
 			}
 		}
@@ -826,6 +878,47 @@ func (t *htr) ex(sc *hscope, e ast.Expr, want string) string {
 			return "(Go.listBack stk_)"
 		case "Len":
 			return "(Go.len stk_)"
+		}
+		if fld, op := t.counterOp(sc, x); op == "current" {
+			return id(sc.fn.recvName) + "." + id(fld)
+		}
+		if se, ok := x.Fun.(*ast.SelectorExpr); ok && se.Sel.Name == "Sprint" && strings.HasSuffix(t.typeOf(sc, se.X), "color.Color") && len(x.Args) == 1 {
+			return "(Go.color_Sprint " + t.ex(sc, x.Args[0], "string") + ")"
+		}
+		if se, ok := x.Fun.(*ast.SelectorExpr); ok {
+			if p, ok := se.X.(*ast.Ident); ok && p.Name == "fmt" && se.Sel.Name == "Sprintf" && len(x.Args) >= 1 {
+				if lit, ok := x.Args[0].(*ast.BasicLit); ok && lit.Kind == token.STRING {
+					format, _ := strconv.Unquote(lit.Value)
+					// a constant format with %s and %d verbs: expanded here
+					var parts []string
+					ai := 1
+					cur := ""
+					for i := 0; i < len(format); i++ {
+						if format[i] == '%' && i+1 < len(format) && (format[i+1] == 's' || format[i+1] == 'd') && ai < len(x.Args) {
+							if cur != "" {
+								parts = append(parts, bytesLit(cur))
+								cur = ""
+							}
+							a := t.ex(sc, x.Args[ai], t.typeOf(sc, x.Args[ai]))
+							if format[i+1] == 'd' {
+								a = "(Go.fmt_d " + a + ")"
+							}
+							parts = append(parts, a)
+							ai++
+							i++
+							continue
+						}
+						if format[i] == '%' {
+							return t.fail(x.Pos(), "format verb")
+						}
+						cur += string(format[i])
+					}
+					if cur != "" {
+						parts = append(parts, bytesLit(cur))
+					}
+					return "(" + strings.Join(parts, " ++ ") + ")"
+				}
+			}
 		}
 		if se, ok := x.Fun.(*ast.SelectorExpr); ok && se.Sel.Name == "Close" && t.typeOf(sc, se.X) == "*os.File" {
 			return "none" // closing the file os.Create has just returned does not fail in the file-system model
@@ -1123,6 +1216,9 @@ func (t *htr) seq(sc *hscope, stmts []ast.Stmt, c *hcont, ind string) string {
 		if !ok {
 			return ind + t.fail(x.Pos(), "expression statement") + "\n"
 		}
+		if fld, op := t.counterOp(sc, call); op == "next" || op == "reset" {
+			return t.counterStmt(sc, fld, op, ind) + t.seq(sc, rest, c, ind)
+		}
 		if listOp(f, call) == "PushBack" && len(call.Args) == 1 {
 			return ind + "let stk_ := stk_ ++ [" + t.ex(sc, call.Args[0], "*Node") + "]\n" + t.seq(sc, rest, c, ind)
 		}
@@ -1268,7 +1364,60 @@ func (t *htr) seq(sc *hscope, stmts []ast.Stmt, c *hcont, ind string) string {
 }
 
 // assignH: one assignment statement as `let` lines
+func (t *htr) counterStmt(sc *hscope, fld, op, ind string) string {
+	r := id(sc.fn.recvName)
+	if op == "reset" {
+		return ind + "let " + r + " := { " + r + " with " + id(fld) + " := (0 : Int) }\n"
+	}
+	return ind + "let " + r + " := { " + r + " with " + id(fld) + " := " + r + "." + id(fld) + " + (1 : Int) }\n"
+}
+
+// hoist: calls with an effect inside an expression are bound to temporaries first (in the order they occur, which is
+// Go's evaluation order for the operands of `+`); the expression is rebuilt over the temporaries
+func (t *htr) hoist(sc *hscope, e ast.Expr, c *hcont, ind string, n *int) (string, ast.Expr) {
+	switch x := e.(type) {
+	case *ast.ParenExpr:
+		pre, y := t.hoist(sc, x.X, c, ind, n)
+		return pre, &ast.ParenExpr{X: y}
+	case *ast.BinaryExpr:
+		p1, a := t.hoist(sc, x.X, c, ind, n)
+		p2, b := t.hoist(sc, x.Y, c, ind, n)
+		return p1 + p2, &ast.BinaryExpr{X: a, Op: x.Op, Y: b}
+	case *ast.CallExpr:
+		if g := t.resolve(sc, x); g != nil && (len(g.outs) > 0 || g.fuel) {
+			*n++
+			tmp := fmt.Sprintf("t%d_", *n)
+			rt := "?"
+			for _, r := range g.results {
+				if !strings.HasPrefix(r, "~") {
+					rt = r
+				}
+			}
+			sc.declare(tmp, rt)
+			return t.bindCall(sc, []string{tmp}, x, g, c, ind), ast.NewIdent(tmp)
+		}
+	}
+	return "", e
+}
+
 func (t *htr) assignH(sc *hscope, x *ast.AssignStmt, c *hcont, ind string) string {
+	if len(x.Lhs) == 1 && len(x.Rhs) == 1 {
+		if idt, ok := x.Lhs[0].(*ast.Ident); ok && idt.Name == "_" {
+			if call, ok := x.Rhs[0].(*ast.CallExpr); ok {
+				if fld, op := t.counterOp(sc, call); op == "next" {
+					return t.counterStmt(sc, fld, op, ind)
+				}
+			}
+		}
+		if _, isCall := x.Rhs[0].(*ast.CallExpr); !isCall || x.Tok == token.ADD_ASSIGN {
+			n := 0
+			if pre, rhs := t.hoist(sc, x.Rhs[0], c, ind, &n); pre != "" {
+				y := *x
+				y.Rhs = []ast.Expr{rhs}
+				return pre + t.assignH(sc, &y, c, ind)
+			}
+		}
+	}
 	if len(x.Rhs) == 1 {
 		if call, ok := x.Rhs[0].(*ast.CallExpr); ok {
 			if g := t.resolve(sc, call); g != nil && g.effectful() {
@@ -1489,8 +1638,10 @@ func (t *htr) function(f *hfn) string {
 			rts = append(rts, "Go.Writer")
 		case "stk_":
 			rts = append(rts, "(List Go.Ptr)")
-		default:
+		case "cbs_":
 			rts = append(rts, "σ")
+		default:
+			rts = append(rts, t.leanType(f.recvType)) // the receiver, returned with its counters
 		}
 	}
 	for _, r := range f.results {
